@@ -147,7 +147,7 @@ class Base64Binary(AbstractBinary):
         elif not isinstance(value, str):
             raise cls._invalid_type(value)
 
-        value = value.replace(' ', '')
+        value = collapse_white_spaces(value).replace(' ', '')
         if value:
             match = cls.pattern.match(value)
             if match is None or match.group(0) != value:
